@@ -86,7 +86,8 @@ impl AnyCheck {
                 // keep allocations small under the interpreter
                 for o in n.ops.iter_mut() {
                     use crate::tape::Op;
-                    let clamp = |x: i64| x.clamp(-3000, 3000);
+                    // (far excursions stay as they are: nothing is allocated out there)
+                    let clamp = |x: i64| if x.unsigned_abs() > 16_000_000 { x } else { x.clamp(-3000, 3000) };
                     *o = match *o {
                         Op::Mov(x) => Op::Mov(clamp(x)),
                         Op::Read(x) => Op::Read(clamp(x)),
@@ -95,6 +96,7 @@ impl AnyCheck {
                         Op::Check(x) => Op::Check(clamp(x)),
                         Op::PtrRel(x) => Op::PtrRel(clamp(x)),
                         Op::CheckPtr(x) => Op::CheckPtr(clamp(x)),
+                        Op::Impossible(x, w) => Op::Impossible(x, w),
                     };
                 }
                 Some(AnyCheck::Tape(n))
@@ -218,7 +220,12 @@ pub fn make(prop: &str, rng: &mut Rng, env: &GenEnv) -> Checks {
         }
         _ => {
             let (items, family) = props::make_checks(prop, rng, env);
-            Checks { items: items.into_iter().map(AnyCheck::Prog).collect(), family }
+            let mut items: Vec<AnyCheck> = items.into_iter().map(AnyCheck::Prog).collect();
+            if prop == "C17" && rng.coin() {
+                // the same clause at the API level: a request nobody can serve, panic caught
+                items.push(AnyCheck::Tape(crate::tape::generate_impossible(rng, prop)));
+            }
+            Checks { items, family }
         }
     }
 }
